@@ -107,6 +107,7 @@ def run(ctx) -> None:
     rep.rule("C14.R7", "a PAUSED nested result is never consumed as data", floor=4)
     rep.rule("C14.R9", "the pause description is built in the graph's name space: no current input name is looked up in a mapping keyed by the handler's own parameter names (or vice versa)", floor=2)
     rep.rule("C14.R10", "a response supplied by the caller is used as given: on the resume path the node cache is neither consulted (a cached answer would shadow the supplied one) nor written (a supplied answer is not a computed result)", floor=2)
+    rep.rule("C14.R11", "resuming re-emits the very object the caller supplied; storing the object that is already stored under a name never advances its version (else nodes that consumed the answer go stale and an answered interrupt pauses again)", floor=1)
     rep.rule("C14.R8", "the pause handler always returns the PAUSED result: values computed before the pause are filtered with the non-raising policy", floor=2)
 
     pe = db.cls("runners._shared.types.PauseExecution")
@@ -359,6 +360,31 @@ def run(ctx) -> None:
 
     # ---- R10 --------------------------------------------------------------------
     check_resume_bypasses_cache(ctx, "C14.R10")
+
+    # ---- R11 --------------------------------------------------------------------
+    # the resume path returns {o: state.values[o]}: the superstep stores that same object again.  Under 'old value is
+    # the new value' (existing name, not the emit sentinel) no version increment may be reachable — an equality test
+    # alone is not enough: NaN, or any object with an unusual __ne__, differs from itself
+    gs11 = db.cls("runners._shared.types.GraphState").methods["update_value"]
+    c11 = ctx.cfg(gs11)
+    incs11 = [n for n in c11.nodes if n.kind == "stmt" and isinstance(n.ast, (ast.Assign, ast.AugAssign)) and "versions" in src(n.ast.targets[0] if isinstance(n.ast, ast.Assign) else n.ast.target)]
+    if not incs11:
+        raise AnalysisError("update_value: version write not found")
+    vp11 = [p_ for p_ in gs11.param_names if p_ != "self"][1]
+    np11 = [p_ for p_ in gs11.param_names if p_ != "self"][0]
+    olds = [nm for nm, ds in db.local_defs(gs11).items() if any(getattr(d, "value", None) is not None and ".values" in src(d.value) and ("get(" in src(d.value) or "[" in src(d.value)) for d in ds)]
+    news = [nm for nm, ds in db.local_defs(gs11).items() if any(isinstance(d, ast.Assign) and " not in " in src(d.value) and "values" in src(d.value) for d in ds)]
+    val11 = {f"{vp11} is _EMIT_SENTINEL": False, f"{np11} not in self.values": False, f"{np11} in self.values": True}
+    for nm in news:
+        val11[nm] = False
+    for o_ in olds:
+        val11[f"{o_} is {vp11}"] = True
+        val11[f"{vp11} is {o_}"] = True
+        val11[f"{o_} is not {vp11}"] = False
+        val11[f"{vp11} is not {o_}"] = False
+    live11 = reachable(c11.entry, specialize(val11, c11))
+    hit11 = [n for n in incs11 if n in live11]
+    rep.add("C14.R11", f"{gs11.qname}:same-object-is-no-change", not hit11, gs11.loc(), "re-storing the stored object leaves the version alone" if not hit11 else f"storing the very object that is already stored can advance the version (line {hit11[0].lineno}; decided by '!=' alone): resuming with an answer that differs from itself (float('nan'), an array-like) makes the consumers of the answer stale, and an interrupt that was already answered pauses again")
 
     # ---- R5 ---------------------------------------------------------------------
     ge = db.cls("runners.async_.executors.graph_node.AsyncGraphNodeExecutor")
